@@ -35,10 +35,10 @@ var guardMap = map[string]map[string]string{
 // Single-threaded initialisation: functions that touch guarded fields before any goroutine that can reach the
 // field exists (constructors, configuration loading).
 var initExempt = map[string]string{
-	"loadVerifyConfigFile": "builds the RuntimeState before any listener or background goroutine is started",
-	"newEventNotifier":     "constructor: the value is not yet shared",
-	"newForTesting":        "constructor: the value is not yet shared",
-	"newAuthenticator":     "constructor: the value is not yet shared",
+	"loadVerifyConfigFile":   "builds the RuntimeState before any listener or background goroutine is started",
+	"newEventNotifier":       "constructor: the value is not yet shared",
+	"newForTesting":          "constructor: the value is not yet shared",
+	"newAuthenticator":       "constructor: the value is not yet shared",
 	"newPublicAuthenticator": "constructor: the value is not yet shared",
 }
 
@@ -431,7 +431,6 @@ func heldAtAllCallersOrStartup(c *km.Ctx, ls *km.LockSets, fn *ssa.Function, mu 
 	}
 	return true
 }
-
 
 // checkUnsealLock: unsealCA takes the state mutex as its first action, defers the unlock in the entry block and
 // holds it at every return.
